@@ -504,6 +504,32 @@ func (e *permEnv) exec(op string) string {
 		}
 		msg := &exchange.MsgMarketSetOrderExternalIDRequest{Admin: e.T(ws[3]), MarketId: m, OrderId: id, ExternalId: ext}
 		return run(msg, ws[3], func(ctx sdk.Context) error { _, err := e.srv.MarketSetOrderExternalID(ctx, msg); return err })
+	case "settle": // settle <market named> <ask id> <bid id> <caller>: a probe, never written
+		if len(ws) != 5 {
+			return "bad-op"
+		}
+		var m uint32
+		var ask, bid uint64
+		fmt.Sscan(ws[1], &m)
+		fmt.Sscan(ws[2], &ask)
+		fmt.Sscan(ws[3], &bid)
+		msg := &exchange.MsgMarketSettleRequest{Admin: e.T(ws[4]), MarketId: m, AskOrderIds: []uint64{ask}, BidOrderIds: []uint64{bid}}
+		if !e.signerOK(msg, ws[4]) {
+			return "err:signer-mismatch"
+		}
+		var herr error
+		_, pan := Try(e.ctx, func(ctx sdk.Context) error {
+			_, herr = e.srv.MarketSettle(ctx, msg)
+			return fmt.Errorf("never write settle probes")
+		})
+		if pan != "" {
+			return "panic:" + pan
+		}
+		if r := permClass(herr); r == "err:perm" {
+			return r
+		} else {
+			return "pass #" + r
+		}
 	case "commit": // commit <market> <account>: the account commits funds of its own
 		if len(ws) != 3 {
 			return "bad-op"
@@ -586,6 +612,7 @@ func (e *permEnv) createOrder(m uint32, owner, kind string) (uint64, error) {
 	}
 	if err == nil {
 		e.orders = append(e.orders, id)
+		e.ordInfo[id] = kind
 	}
 	return id, err
 }
@@ -1080,6 +1107,37 @@ func drivePerm(t *testing.T, rng *RNG, n int, out *Out) {
 					}
 				}
 				caller = permSpell(rng, caller, 30)
+				if rng.Chance(10) {
+					ep = "MarketSettle"
+				}
+				if ep == "MarketSettle" && rng.Chance(70) {
+					// a settlement naming a live ask and a live bid of the history, of whatever market
+					var asks, bids []uint64
+					for _, oid := range e.orders {
+						if o, err := e.app.ExchangeKeeper.GetOrder(e.ctx, oid); err == nil && o != nil {
+							if o.IsAskOrder() {
+								asks = append(asks, oid)
+							} else {
+								bids = append(bids, oid)
+							}
+						}
+					}
+					if len(asks) > 0 && len(bids) > 0 {
+						ask, bid := Pick(rng, asks), Pick(rng, bids)
+						ao, _ := e.app.ExchangeKeeper.GetOrder(e.ctx, ask)
+						bo, _ := e.app.ExchangeKeeper.GetOrder(e.ctx, bid)
+						if rng.Chance(50) {
+							m = ao.GetMarketID()
+						}
+						where := "other-market"
+						if ao.GetMarketID() == m && bo.GetMarketID() == m {
+							where = "named-market"
+						}
+						r := emit(fmt.Sprintf("settle %d %d %d %s", m, ask, bid, caller))
+						out.Count("settle:" + where + ":" + r)
+						break
+					}
+				}
 				r := emit(fmt.Sprintf("call %s %d %s", ep, m, caller))
 				if strings.HasSuffix(caller, "^") {
 					out.Count("spelling:caller-upper:" + strings.Fields(r)[0])
